@@ -248,6 +248,7 @@ enum Event {
 /// # Safety
 /// Arguments as for `io_uring_enter(2)`.
 pub unsafe fn io_uring_enter(fd: i32, to_submit: u32, min_complete: u32, flags: u32, arg: *const c_void, _size: usize) -> i32 {
+    crate::multi::point();
     crate::check_memory_ledger();
     let known = with_kernel(|k| {
         k.clock_ns += k.cfg.tick_ns;
@@ -344,6 +345,8 @@ pub unsafe fn io_uring_enter(fd: i32, to_submit: u32, min_complete: u32, flags: 
 
     let mut timed_out = false;
     let mut guard = 0u32;
+    // (Engine M) whether anything has happened in this call since the thread last waited for its turn
+    let mut looked_only = false;
     loop {
         guard += 1;
         if guard > 100_000 {
@@ -389,6 +392,18 @@ pub unsafe fn io_uring_enter(fd: i32, to_submit: u32, min_complete: u32, flags: 
                 (None, Some(d)) => Some(d),
                 (None, None) => None,
             };
+            if crate::multi::active() {
+                // other threads of the run go on; this one looks again when something has happened
+                // elsewhere or when time has reached what it waits for
+                crate::multi::wait_in_kernel(next, looked_only);
+                looked_only = true;
+                let now = with_kernel(|k| k.clock_ns);
+                if deadline.map(|d| now >= d).unwrap_or(false) && next_env.map(|e| e > now).unwrap_or(true) {
+                    timed_out = true;
+                    break;
+                }
+                continue;
+            }
             match next {
                 Some(t) if !crate::is_active() => {
                     let now = with_kernel(|k| k.clock_ns);
@@ -427,6 +442,7 @@ pub unsafe fn io_uring_enter(fd: i32, to_submit: u32, min_complete: u32, flags: 
                 }
             }
         }
+        looked_only = false;
         if !want_wait && flip("k.enter.lazy", lazy) {
             // completions are only discovered later
             fault("completion-left-pending");
